@@ -1211,6 +1211,57 @@ static void template_l0_chain(hist_t *H) {
   vh_count("template_T4", 1);
 }
 
+/* T5: a file that ends with the newer versions of a user key (older versions start the next file of the level)
+   enters a compaction only through the input-growing step: the compaction starts from another file of the level,
+   the next level's input stretches the range into the straddling file but stops short of the shared key.  Every
+   file holding older versions of that key must move down with it. */
+static void template_grown_straddle(hist_t *H) {
+  int n = (int)H->m.nrows, q[7], i, saved_max = H->max_snaps;
+  ldb_slice_t kb, ke;
+  if (n < 21) return;
+  /* a < b < c < e < f < g < k in comparator order */
+  for (i = 0; i < 7; i++) q[i] = i * (n / 7) + (int)vr_uniform(&H->r, (uint32_t)(n / 7));
+  H->hot[H->nhot++] = q[6];
+  H->max_snaps = MAX_SNAPS;
+  /* P = [b..f], sinks to the deepest level a flush may choose */
+  do_put(H, q[1], 50 + vr_uniform(&H->r, 500), 0);
+  do_put(H, q[4], 50 + vr_uniform(&H->r, 500), 0);
+  expect_ok(H, ldb_test_compact_memtable(H->h.db), "flush(T5 P)");
+  ldb_test_compact_range(H->h.db, 0, NULL, NULL);
+  ldb_test_compact_range(H->h.db, 1, NULL, NULL);
+  /* Y = [e] one level above P */
+  do_put(H, q[3], 50 + vr_uniform(&H->r, 500), 0);
+  expect_ok(H, ldb_test_compact_memtable(H->h.db), "flush(T5 Y)");
+  /* e again, k old, pin, k new (larger than a table file), compaction of [g..k]: output cut between the versions of k */
+  do_put(H, q[3], 50 + vr_uniform(&H->r, 500), 0);
+  if (vr_chance(&H->r, 300)) do_del(H, q[6], 0); else do_put(H, q[6], 100 + vr_uniform(&H->r, 3000), 0);
+  snap_take(H);
+  do_put(H, q[6], (1100 << 10) + vr_uniform(&H->r, 200 << 10), 0);
+  kb = row_key(H, q[5]); ke = row_key(H, q[6]);
+  ldb_compact(H->h.db, &kb, &ke);
+  ldb_verif_wait_idle(H->h.db);
+  layoutmon_check(H->h.db, &H->h, "T5-straddle-built", 0);
+  /* A = [a..c] next to the straddling file */
+  do_put(H, q[0], 50 + vr_uniform(&H->r, 500), 0);
+  do_put(H, q[2], 50 + vr_uniform(&H->r, 500), 0);
+  expect_ok(H, ldb_test_compact_memtable(H->h.db), "flush(T5 A)");
+  H->flushes += 4;
+  full_check(H, "T5-built");
+  /* compaction that starts from A only */
+  kb = row_key(H, q[0]); ke = row_key(H, q[2]);
+  shadow_start(H);
+  if (vr_chance(&H->r, 500)) ldb_compact(H->h.db, &kb, &ke);
+  else ldb_test_compact_range(H->h.db, 1, &kb, &ke);
+  shadow_stop(H);
+  H->compactions += 4;
+  ldb_verif_wait_idle(H->h.db);
+  layoutmon_check(H->h.db, &H->h, "T5-compacted", 0);
+  full_check(H, "T5-compacted");
+  while (H->nsnaps > 0) snap_release_at(H, H->nsnaps - 1);
+  H->max_snaps = saved_max;
+  vh_count("template_T5", 1);
+}
+
 /* ------------------------------------------------------------------ */
 /* one history */
 
@@ -1234,7 +1285,9 @@ static void run_case(uint64_t seed, int caseidx, int focus, const char *base, in
   vr_seed(&H->spell_rng, seed * 77 + (uint64_t)caseidx);
   if (vr_chance(&H->r, 130)) { cfg.cmp_kind = CMP_NOCASE; cfg.filter_bits = 0; }   /* byte-wise bloom is not legal here */
   H->tmpl = caseidx % 5;   /* 0 none, 1 straddle, 2 tombstone, 3 overlap, 4 level-0 chain */
-  if (H->tmpl == 1) cfg.max_file_size = 1 << 20;
+  if (H->tmpl == 0 && (caseidx / 5) % 2 == 1) H->tmpl = 5;   /* 5 straddling file reached through input growing */
+  if (H->tmpl == 1 || H->tmpl == 5) cfg.max_file_size = 1 << 20;
+  if (H->tmpl == 5) cfg.compression = 0;
   H->max_snaps = focus == F_C06 ? MAX_SNAPS : 3;
   switch (focus) {
     case F_C06: w.snap = 70; w.unsnap = 45; w.flush = 30; w.crange = 35; w.cmanual = 8; w.idrive = 60; break;
@@ -1270,6 +1323,7 @@ static void run_case(uint64_t seed, int caseidx, int focus, const char *base, in
   else if (H->tmpl == 2) template_tombstone(H);
   else if (H->tmpl == 3) template_overlap(H);
   else if (H->tmpl == 4) template_l0_chain(H);
+  else if (H->tmpl == 5) template_grown_straddle(H);
 
   total = w.put + w.del + w.batch + w.get + w.flush + w.crange + w.cmanual + w.call + w.reopen + w.snap +
           w.unsnap + w.iopen + w.iclose + w.idrive + w.approx + w.prop + w.midc;
